@@ -13,6 +13,7 @@
 pub proof fn lemma_scale_order(c: real)
     ensures forall|a: real, b: real| a <= b ==> (c > 0real ==> #[trigger] rmul_s(c, a) <= #[trigger] rmul_s(c, b)) && (c < 0real ==> rmul_s(c, a) >= rmul_s(c, b)),
 {
+    reveal(rmul_s); reveal(rdiv_s);
     assert forall|a: real, b: real| a <= b implies (c > 0real ==> #[trigger] rmul_s(c, a) <= #[trigger] rmul_s(c, b)) && (c < 0real ==> rmul_s(c, a) >= rmul_s(c, b)) by {
         assert(a <= b && c > 0real ==> c * a <= c * b) by (nonlinear_arith);
         assert(a <= b && c < 0real ==> c * a >= c * b) by (nonlinear_arith);
@@ -21,5 +22,6 @@ pub proof fn lemma_scale_order(c: real)
 pub proof fn lemma_scale_neg(c: real)
     ensures forall|a: real| #[trigger] rmul_s(c, a) == rmul_s(-c, -a),
 {
+    reveal(rmul_s); reveal(rdiv_s);
     assert forall|a: real| #[trigger] rmul_s(c, a) == rmul_s(-c, -a) by { assert(c * a == (-c) * (-a)) by (nonlinear_arith); }
 }
